@@ -29,11 +29,16 @@ type cop struct {
 	// down to its id when size < 0) and stores the same object again. Without an earlier Put of the key it is an
 	// ordinary Put of size class 0.
 	reput bool
+	// bytes > 0 (put only): a bitmap of at most that many bytes (as close to it as two-byte steps allow)
+	bytes int
 }
 
 func (o cop) String() string {
 	if o.reput {
 		return fmt.Sprintf("R%d.%d", o.key, o.size)
+	}
+	if o.put && o.bytes > 0 {
+		return fmt.Sprintf("B%d.%d", o.key, o.bytes)
 	}
 	if o.put {
 		return fmt.Sprintf("P%d.%d", o.key, o.size)
@@ -77,6 +82,41 @@ func mkbm(class int, id uint32) *roaring.Bitmap {
 	return bm
 }
 
+var bmBytesBase sync.Map // byte target -> *roaring.Bitmap (without the id)
+
+// mkbmBytes builds a bitmap carrying the unique id whose serialised-size estimate (GetSizeInBytes, what the cache
+// accounts) is the largest value <= target that two-byte steps reach; targets below the minimum give the minimum.
+func mkbmBytes(target int, id uint32) *roaring.Bitmap {
+	b, ok := bmBytesBase.Load(target)
+	if !ok {
+		bm := roaring.New()
+		bm.Add(idBase) // stands for the id's container while sizing
+		v := uint32(1)
+		for {
+			bm.Add(v)
+			if bm.GetSizeInBytes() > uint64(target) {
+				bm.Remove(v)
+				break
+			}
+			v += 2
+			if v&0xffff > 8000 { // stay in array containers: next chunk
+				v = (v>>16+1)<<16 + 1
+			}
+		}
+		bm.Remove(idBase)
+		b, _ = bmBytesBase.LoadOrStore(target, bm)
+	}
+	bm := b.(*roaring.Bitmap).Clone()
+	bm.Add(idBase + id)
+	return bm
+}
+
+// opFact is what one operation shows at the interface while the sequence runs.
+type opFact struct {
+	hit  bool   // Get: it was a hit
+	size uint64 // Put: size of the bitmap stored
+}
+
 type lruObs struct {
 	resident map[uint64]uint32 // key -> unique id found
 	bytes    uint64
@@ -85,6 +125,12 @@ type lruObs struct {
 
 // lruRun executes ops on a fresh cache and probes all keys at the end.
 func lruRun(capacity uint64, ops []cop, keys []uint64) (o lruObs, law string) {
+	o, _, law = lruRunFacts(capacity, ops, keys)
+	return
+}
+
+func lruRunFacts(capacity uint64, ops []cop, keys []uint64) (o lruObs, facts []opFact, law string) {
+	facts = make([]opFact, len(ops))
 	var g, p, h, m ix.Counter
 	c := updog.NewLRUCache(capacity, updog.WithCacheMetrics(&updog.CacheMetrics{CacheHit: &h, CacheMiss: &m, GetCall: &g, PutCall: &p}))
 	last := map[uint64]*roaring.Bitmap{}
@@ -112,6 +158,7 @@ func lruRun(capacity uint64, ops []cop, keys []uint64) (o lruObs, law string) {
 			}
 			c.Put(op.key, bm)
 			o.putSize = bm.GetSizeInBytes()
+			facts[i].size = o.putSize
 			eputs++
 		} else if op.put || op.reput {
 			class := op.size
@@ -119,8 +166,12 @@ func lruRun(capacity uint64, ops []cop, keys []uint64) (o lruObs, law string) {
 				class = 0
 			}
 			bm := mkbm(class, uint32(i))
+			if op.bytes > 0 && !op.reput {
+				bm = mkbmBytes(op.bytes, uint32(i))
+			}
 			c.Put(op.key, bm)
 			o.putSize = bm.GetSizeInBytes()
+			facts[i].size = o.putSize
 			last[op.key] = bm
 			lastID[op.key] = uint32(i)
 			eputs++
@@ -129,28 +180,29 @@ func lruRun(capacity uint64, ops []cop, keys []uint64) (o lruObs, law string) {
 			egets++
 			if ok {
 				ehits++
+				facts[i].hit = true
 				if l := check(op.key, bm, fmt.Sprintf("op %d", i)); l != "" {
-					return o, l
+					return o, facts, l
 				}
 			} else if bm != nil {
-				return o, fmt.Sprintf("L1: op %d get(%d) missed but returned a bitmap", i, op.key)
+				return o, facts, fmt.Sprintf("L1: op %d get(%d) missed but returned a bitmap", i, op.key)
 			}
 		}
 	}
 	if g.N != egets || p.N != eputs || h.N != ehits || m.N != egets-ehits {
-		return o, fmt.Sprintf("L6: counters get=%d (want %d) put=%d (want %d) hit=%d (want %d) miss=%d (want %d)", g.N, egets, p.N, eputs, h.N, ehits, m.N, egets-ehits)
+		return o, facts, fmt.Sprintf("L6: counters get=%d (want %d) put=%d (want %d) hit=%d (want %d) miss=%d (want %d)", g.N, egets, p.N, eputs, h.N, ehits, m.N, egets-ehits)
 	}
 	o.resident = map[uint64]uint32{}
 	for _, k := range keys {
 		if bm, ok := c.Get(k); ok {
 			if l := check(k, bm, "final probe"); l != "" {
-				return o, l
+				return o, facts, l
 			}
 			o.resident[k] = lastID[k]
 			o.bytes += bm.GetSizeInBytes()
 		}
 	}
-	return o, ""
+	return o, facts, ""
 }
 
 // lruState is what the laws need to remember along a sequence.
@@ -177,6 +229,46 @@ func (s *lruState) clone() *lruState {
 		c.maxSize[k] = v
 	}
 	return c
+}
+
+// stateAfter reconstructs the law state after all of ops from ONE run: which Gets hit and how large each stored
+// bitmap was is visible at the interface while the sequence runs, the resident set comes from the terminal probe.
+// It lets a long sequence be checked at chosen positions only (two replays per position).
+func stateAfter(capacity uint64, ops []cop, keys []uint64) (*lruState, string) {
+	o, facts, law := lruRunFacts(capacity, ops, keys)
+	if law != "" {
+		return nil, law
+	}
+	s := newLRUState()
+	s.prev = o
+	for i, op := range ops {
+		if op.put || op.reput {
+			s.lastUse[op.key], s.lastPut[op.key] = i+1, i+1
+			if facts[i].size > s.maxSize[op.key] {
+				s.maxSize[op.key] = facts[i].size
+			}
+		} else if facts[i].hit {
+			s.lastUse[op.key] = i + 1
+		}
+	}
+	return s, ""
+}
+
+// checkAt checks the laws for the operations at the given 1-based positions of seq.
+func checkAt(capacity uint64, seq []cop, keys []uint64, positions []int, st *lruStats) (int, string) {
+	for _, p := range positions {
+		if p < 1 || p > len(seq) {
+			continue
+		}
+		state, law := stateAfter(capacity, seq[:p-1], keys)
+		if law == "" {
+			law = state.step(capacity, seq[:p], keys, st)
+		}
+		if law != "" {
+			return p, law
+		}
+	}
+	return 0, ""
 }
 
 type lruStats struct {
@@ -279,7 +371,7 @@ func opsString(ops []cop) string {
 func runC07(r *vf.Run) {
 	r.Rule("one evaluation = one prefix of an operation sequence replayed on a fresh LRUCache and probed (every key looked up at its end) with laws L1-L6 checked for its last operation; " +
 		"exhaustive part: all sequences over 3 keys x {Get, Put of 3 size classes} plus the re-Put of the same object after the caller grew it (15 symbols) up to the stated length for 5 capacities (DFS, every node is a prefix); " +
-		"random part: sequences up to length 300 over <= 12 keys, sizes 8 B .. 4x capacity; distinct_nontrivial = distinct (capacity, sequence) nodes with >= 2 operations")
+		"random part: sequences up to length 300 over <= 12 keys, sizes 8 B .. 4x capacity; long part: crafted families (n resident entries then one displacing Put, n up to 513/4097; bursts of 0..300/2100 Get hits between two Puts) and random Get-heavy sequences up to 4300 operations over <= 151 keys, laws checked at the listed positions (two replays each); distinct_nontrivial = distinct (capacity, sequence) nodes with >= 2 operations")
 	r.Assume("per-entry bookkeeping allowance of 256 bytes for 'fits' (the implementation's is 64 bytes)", "bitmaps are not mutated by the caller after Put")
 	keys := []uint64{1, 2, 3}
 	var syms []cop
@@ -412,6 +504,139 @@ func runC07(r *vf.Run) {
 			r.Sample("random-sequence", map[string]any{"capacity": capacity, "keys": len(rk), "length": len(seq), "ops": s})
 		}
 	})
+	// long crafted and random sequences, checked at chosen positions only (stateAfter/checkAt): patterns that short
+	// exhaustive sequences over three keys cannot contain
+	type longCase struct {
+		capacity  uint64
+		seq       []cop
+		keys      []uint64
+		positions []int
+		family    string
+	}
+	longCases := map[string]longCase{}
+	var lids []string
+	addLong := func(id string, c longCase) {
+		lids = append(lids, id)
+		longCases[id] = c
+	}
+	const entry = 1000 // bytes of one ordinary entry in these families
+	// (1) many small resident entries, then one Put that has to displace most or all of them
+	ns := []int{1, 2, 3, 8, 16, 31, 32, 33, 34, 35, 40, 63, 64, 65, 66, 70, 100, 127, 128, 129, 130, 200, 257, 300, 513}
+	if r.Thorough() {
+		ns = append(ns, 1000, 1025, 2049, 4097)
+	}
+	for _, n := range ns {
+		capacity := uint64(n) * (entry + lruSlack)
+		for bi, big := range []int{int(capacity) - 200, int(capacity) / 2, int(capacity) * 2, int(capacity) - 200 - entry} {
+			var seq []cop
+			var ks []uint64
+			for k := 1; k <= n; k++ {
+				seq = append(seq, cop{put: true, key: uint64(k), bytes: entry})
+				ks = append(ks, uint64(k))
+			}
+			if bi%2 == 1 {
+				seq = append(seq, cop{key: 1}, cop{key: uint64(n)}) // hits in between
+			}
+			at := len(seq)
+			seq = append(seq, cop{put: true, key: uint64(n + 1), bytes: big}, cop{put: true, key: uint64(n + 2), bytes: entry}, cop{key: uint64(n + 1)}, cop{put: true, key: 1, bytes: entry})
+			ks = append(ks, uint64(n+1), uint64(n+2))
+			addLong(fmt.Sprintf("long/displace/n%d/b%d", n, bi), longCase{capacity, seq, ks, []int{at, at + 1, at + 2, at + 4}, "one Put displacing many entries"})
+		}
+	}
+	// (2) bursts of Get hits between two Puts, then the Get that decides the victim
+	maxBurst := r.Pick(300, 2100)
+	for _, m := range []int{2, 3} {
+		capacity := uint64(m) * (entry + lruSlack) // m entries fit comfortably, m+1 do not fit
+		for g := 0; g <= maxBurst; g++ {
+			for pat := 0; pat < 2; pat++ {
+				var seq []cop
+				ks := []uint64{}
+				for k := 1; k <= m; k++ {
+					seq = append(seq, cop{put: true, key: uint64(k), bytes: entry})
+					ks = append(ks, uint64(k))
+				}
+				for i := 0; i < g; i++ {
+					if pat == 0 {
+						seq = append(seq, cop{key: uint64(m)}) // all on the newest key
+					} else {
+						seq = append(seq, cop{key: uint64(2 + i%(m-1))}) // round-robin over all keys but the oldest
+					}
+				}
+				seq = append(seq, cop{key: 1}) // the oldest key is used last ...
+				at := len(seq)
+				seq = append(seq, cop{put: true, key: 100, bytes: entry}, cop{put: true, key: 101, bytes: entry}) // ... so it must survive the next Put
+				ks = append(ks, 100, 101)
+				addLong(fmt.Sprintf("long/burst/m%d/p%d/g%d", m, pat, g), longCase{capacity, seq, ks, []int{at + 1, at + 2}, "Get burst between two Puts"})
+			}
+		}
+	}
+	// (3) random long sequences: many keys, Get-heavy, bimodal sizes
+	for i := 0; i < r.Pick(60, 600); i++ {
+		id := fmt.Sprintf("long/random/%03d", i)
+		rng := r.RNG(id)
+		nk := 2 + rng.Intn(150)
+		fit := 1 + rng.Intn(nk+10) // entries that fit
+		capacity := uint64(fit) * (entry + lruSlack)
+		getPct := []int{30, 80, 95, 98}[rng.Intn(4)]
+		n := 300 + rng.Intn(r.Pick(1500, 4000))
+		var seq []cop
+		var ks []uint64
+		for k := 1; k <= nk; k++ {
+			ks = append(ks, uint64(k))
+		}
+		var puts, gets []int
+		for len(seq) < n {
+			k := ks[rng.Intn(nk)]
+			if rng.Intn(100) < getPct {
+				seq = append(seq, cop{key: k})
+				gets = append(gets, len(seq))
+				continue
+			}
+			b := entry
+			switch rng.Intn(12) {
+			case 0:
+				b = int(capacity) - 200 - rng.Intn(entry) // rare near-capacity entry
+			case 1:
+				b = int(capacity)/2 + rng.Intn(entry)
+			case 2:
+				b = 20 + rng.Intn(entry/2)
+			}
+			seq = append(seq, cop{put: true, key: k, bytes: b})
+			puts = append(puts, len(seq))
+		}
+		var pos []int
+		rng.Shuffle(len(puts), func(a, b int) { puts[a], puts[b] = puts[b], puts[a] })
+		rng.Shuffle(len(gets), func(a, b int) { gets[a], gets[b] = gets[b], gets[a] })
+		pos = append(pos, puts[:min(len(puts), 50)]...)
+		pos = append(pos, gets[:min(len(gets), 10)]...)
+		sort.Ints(pos)
+		addLong(id, longCase{capacity, seq, ks, pos, "random long sequence"})
+	}
+	r.ForEach(lids, 16, func(id string) {
+		c := longCases[id]
+		var st lruStats
+		at, law := checkAt(c.capacity, c.seq, c.keys, c.positions, &st)
+		if law != "" {
+			s := opsString(c.seq[:at])
+			if len(s) > 4000 {
+				s = s[:2000] + " … " + s[len(s)-1500:]
+			}
+			r.Violation(id, "law", map[string]any{"capacity": c.capacity, "family": c.family, "failing_position": at - 1, "sequence_up_to_it": s, "law": law,
+				"legend": "Bk.n = Put(key k, bitmap of <= n bytes); Gk = Get(key k)"})
+		}
+		r.Eval(len(c.positions))
+		r.Distinct(id)
+		r.Count("long_sequences", 1)
+		r.Count("long_sequence_positions_checked", int64(len(c.positions)))
+		r.Max("long_sequence_length", int64(len(c.seq)))
+		r.Max("long_sequence_keys", int64(len(c.keys)))
+		r.Count("evictions_observed", st.evictions)
+		r.Count("evictions_observed_in_long_sequences", st.evictions)
+		r.Count("evictions_where_a_get_hit_changed_the_victim", st.getChangedVictim)
+		r.Count("puts_too_large_to_stay", st.selfEvictions)
+		r.Cover("long_families", c.family)
+	})
+	r.Floor("long sequences evicted something", r.GetCount("evictions_observed_in_long_sequences") > 0)
 	// many entries in an ample cache: nothing may be evicted, every key must hit with its own bitmap, counters exact
 	if r.Want("bulk") {
 		r.Guard("bulk", func() {
